@@ -1224,19 +1224,21 @@ class _SetIndexPost(Blockwise):
         return df
 
     def _get_culled_divisions(self, divisions):
+        part_filter = [
+            expr
+            for expr in self.frame.find_operations(PartitionsFiltered)
+            if expr._filtered
+        ]
+        if len(part_filter) > 0:
+            # by position, like Partitions._divisions: a selection may repeat
+            # or reorder partitions
+            partitions = part_filter[0]._partitions
+            return tuple(
+                [divisions[part] for part in partitions]
+                + [divisions[partitions[-1] + 1]]
+            )
         if self.frame.npartitions < len(divisions) - 1:
-            part_filter = list(self.frame.find_operations(PartitionsFiltered))
-            if len(part_filter) > 0:
-                return tuple(
-                    [
-                        div
-                        for i, div in enumerate(divisions)
-                        if i in part_filter[0]._partitions
-                    ]
-                    + [divisions[-1]]
-                )
-            else:
-                return self.frame.divisions
+            return self.frame.divisions
 
         return divisions
 
